@@ -109,7 +109,7 @@ def main():
         })
     manifest = {
         "version": 1,
-        "setup_cmd": "cd /verif/harness && CARGO_NET_OFFLINE=true cargo build --release --offline && CARGO_NET_OFFLINE=true cargo build --profile checked --offline && CARGO_NET_OFFLINE=true cargo build --manifest-path /repo/Cargo.toml -p riscv_analysis_cli --features rva_verif --release --offline --target-dir /verif/harness/target-repo && CARGO_NET_OFFLINE=true cargo build --manifest-path /repo/Cargo.toml -p riscv_analysis_cli --features rva_verif --offline --target-dir /verif/harness/target-repo",
+        "setup_cmd": "ln -sfn /repo /verif/harness/repo-link && cd /verif/harness && CARGO_NET_OFFLINE=true cargo build --release --offline && CARGO_NET_OFFLINE=true cargo build --profile checked --offline && CARGO_NET_OFFLINE=true cargo build --manifest-path /repo/Cargo.toml -p riscv_analysis_cli --features rva_verif --release --offline --target-dir /verif/harness/target-repo && CARGO_NET_OFFLINE=true cargo build --manifest-path /repo/Cargo.toml -p riscv_analysis_cli --features rva_verif --offline --target-dir /verif/harness/target-repo",
         "hooks": {
             "guard": "cargo feature rva_verif (riscv_analysis; forwarded by riscv_analysis_cli/rva_verif)",
             "enable": "the harness depends on /repo/riscv_analysis by path with features=[\"rva_verif\"]; the rva binary is built with --features rva_verif into /verif/harness/target-repo",
